@@ -43,6 +43,13 @@ def _body(engine, shape, k, letters, qshape):
                 cache[(q, r)] = hc.ham_term(qs[q], seqs[r])
             return cache[(q, r)]
 
+        if engine == "kdtree":
+            # rapidfuzz.process.extract keeps only `limit` matches and its DEFAULT is 5: without max_returns the limit handed over must be None
+            # (argument record; the hub probe below exercises the real library with more than five neighbours)
+            from models import rf_model
+            lims = [kw_.get("limit") for name, kw_ in rf_model.CALLS if name == "extract"]
+            if any(l is not None for l in lims):
+                return False, f"process.extract called with limit={lims} although max_returns is None"
         ok = hc.exact_triplets(got, len(qs), len(seqs), dist, k, self_mode=self_mode)
         return ok, (lambda: f"{engine}(max_edits={k}, hamming) returned {_fmt(got)}")
     return body
@@ -81,6 +88,27 @@ def _mk(engine, shape, k, letters, qshape=None, rebind=False, budget=200):
                      bounds=f"{engine} hamming: lengths {shape}" + (f" vs queries {qshape}" if qshape is not None else "")
                             + f", letters {letters or 'free Unicode'}, max_edits={k}",
                      models=("rf", "np", "sp", "mp"), setup=_setup(letters if rebind else None))
+
+
+def _probe_hub(engine, k):
+    def run():
+        import pyrepseq
+        hub = ["CASSLGQYF"] + ["CASSLGQY" + c for c in "ACDEGHI"] + ["CASSF", "CASSLGQYFF", "CASTLGQYA"]
+        got = getattr(pyrepseq, engine)(list(hub), max_edits=k, custom_distance="hamming")
+        ok, detail = hc.compare_triplets(got, hc.want_triplets(hub, hub, hc.ham, k, True))
+        return ok, f"[hub probe] {engine}(max_edits={k}, custom_distance='hamming') on a sequence with seven equal-length neighbours {hub}: {detail}"
+    return run
+
+
+def _probe_long(engine, k):
+    def run():
+        import pyrepseq
+        seqs = ["A" * 128, "A" * 127 + "C", "A" * 129, "C" + "A" * 127, "W" * 260, "W" * 258 + "YY", "CASSLGQYF", "A" * 126 + "CC"]
+        got = getattr(pyrepseq, engine)(list(seqs), max_edits=k, custom_distance="hamming")
+        want = hc.want_triplets(seqs, seqs, hc.ham, k, True)
+        ok, detail = hc.compare_triplets(got, want)
+        return ok, f"[long-sequence probe] {engine}(max_edits={k}, custom_distance='hamming') on sequences of lengths {[len(x) for x in seqs]}: {detail}"
+    return run
 
 
 def _probe_scale(engine):
@@ -133,6 +161,12 @@ def conditions(tier):
         out.append(_mk("hash_based", (2, 2, 2), 2, "ACD", rebind=True, budget=2400))
         out.append(_mk("symdel", (3, 2), 2, None, qshape=(3, 3), budget=2400))
         out.append(_mk("kdtree", (2, 1, 2, 1), 1, "ACY", budget=2400))
+    for engine in ("kdtree", "hash_based", "nearest_neighbor"):
+        out.append(hc.probe_condition(f"C07/probe/{engine}/hub-with-7-neighbours", f"{engine} in Hamming mode on a sequence with seven equal-length neighbours (more than "
+                                      "rapidfuzz.process.extract's default limit of five), k=1", _probe_hub(engine, 1)))
+    for engine, k in [("kdtree", 1), ("kdtree", 2), ("hash_based", 1), ("nearest_neighbor", 2)]:
+        out.append(hc.probe_condition(f"C07/probe/{engine}/long-sequences/k={k}", f"{engine} in Hamming mode, max_edits={k}, eight sequences of length 9-260 with more than 127 copies "
+                                      "of one residue: exact equal-length pairs against a brute-force Hamming distance", _probe_long(engine, k)))
     for engine in ("nearest_neighbor", "hash_based", "kdtree"):
         out.append(hc.probe_condition(f"C07/probe/{engine}/70000-sequences", f"{engine} in Hamming mode, max_edits=1, 70 008 sequences with six planted substitution pairs",
                                       _probe_scale(engine)))
